@@ -463,6 +463,21 @@ class Case(object):
             inmem = pre.mem.dom[key]
             inarch = z3.And(on, pre.A.dom[key])
             usable = z3.And(kd, H)
+            if 'arch-write-fails' in s.labels:
+                # the archive rejected a write (a value it cannot encode).  The properties are stated for archives that accept
+                # the values; what C07 still says on this path is the ORDER: an entry is in the archive *before* it is dropped,
+                # so a rejected write must not have cost any entry.  Only that clause, the frame and Inv are claimed here.
+                x = x_()
+                mval = lambda t: z3.If(z3.And(t == key, z3.Not(inmem)), Gval(key), pre.mem.val[t])
+                ob('C07', 'rejected_archive_write_loses_nothing', forall([x], z3.Implies(
+                    z3.Or(pre.mem.dom[x], z3.And(x == key, usable, z3.Not(inmem))),
+                    z3.Or(z3.And(post.mem.dom[x], post.mem.val[x] == mval(x)),
+                          z3.And(post.A.dom[x], post.A.val[x] == mval(x))))))
+                ob('C07', 'rejected_archive_write_propagates', (not normal) and res.origin == 'archive write rejected')
+                ob('C08', 'frame.archive_binding', self.binding_ok(pre, post))
+                for (nm, g) in self.inv(post):
+                    ob('INV', 'inv.%s' % nm, g)
+                continue
             # ---- C18/C08 frame: the wrapper never rebinds the archive slots
             ob('C08', 'frame.archive_binding', self.binding_ok(pre, post))
             # ---- C02 / C12: evaluations
